@@ -408,3 +408,20 @@ mutantN('C07-class-level-coefficients', 'C07', 'R07.j', [
     (DOMF2, "        self.DST_II_coeffs = ", "        self.DST_coeffs[2] = self.DST_II_coeffs = "),
     (DOMF2, "        return dst(self.DST_II_coeffs*array,type=2)/self.k", "        return dst(self.DST_coeffs[2]*array,type=2)/self.k")])
 mutant('C09-msa-length-assert-inverted', ['C09', 'C01'], 'R09.d', MSAF, "assert len(gamma) == len(self.potential),'Domain mismatch!'", "assert len(gamma) != len(self.potential),'Domain mismatch!'")
+PRF = 'pyPRISM/core/PRISM.py'
+mutant('C01-solve-drops-user-options', 'C01', 'R01.s', PRF, "        if options is None:\n            options = {'disp':True}", "        if options is not None:\n            options = {'disp':True}")
+mutant('C01-solve-ignores-guess', 'C01', 'R01.s', PRF, "        if guess is None:\n            guess = np.zeros(", "        if guess is not None:\n            guess = np.zeros(")
+twin('C01-twin-solve-options-default', 'C01', PRF, "        if options is None:\n            options = {'disp':True}", "        options = {'disp':True} if options is None else options")
+KOYF2 = 'pyPRISM/omega/DiscreteKoyama.py'
+mutant('C11-koyama-asq-denominator', 'C11', 'R11.k', KOYF2, "            Asq = r2*(1-C)/6 #taking the square root results in many domain errors\n        except ValueError as e:\n            raise ValueError('Bad chain parameters. (Try reducing epsilon)')\n            \n        return np.sin(B*k)",
+       "            Asq = r2*(1-C)/7 #taking the square root results in many domain errors\n        except ValueError as e:\n            raise ValueError('Bad chain parameters. (Try reducing epsilon)')\n            \n        return np.sin(B*k)")
+mutant('C11-koyama-cos-sq-sign', 'C11', 'R11.g', KOYF2, "return (2/e)*cos1 + ( exp(e) - cos0*cos0*exp(-e*cos0) )", "return (2/e)*cos1 + ( exp(e) + cos0*cos0*exp(-e*cos0) )")
+mutant('C11-koyama-r2-coefficient', 'C11', 'R11.g', KOYF2, "r2 = n*l*l*((1-self.cos1)/(1+self.cos1) + 2*self.cos1/n", "r2 = n*l*l*((1-self.cos1)/(1+self.cos1) + 3*self.cos1/n")
+mutant('C11-koyama-D-coefficient', 'C11', 'R11.g', KOYF2, "D -= 6*q**(2*n+2)/(1-q)**(4.0)", "D -= 5*q**(2*n+2)/(1-q)**(4.0)")
+mutant('C11-koyama-linearised-cos2-sign', 'C11', 'R11.b', KOYF2, "(1.0/3.0)*(1.0+(self.cos0-1.0)*self.cos0) - \n", "(1.0/3.0)*(1.0+(self.cos0-1.0)*self.cos0) + \n")
+mutant('C11-koyama-root-equation-sign', 'C11', 'R11.b', KOYF2, "funk = lambda e: self.cos_avg(e[0]) - self.cos1", "funk = lambda e: self.cos_avg(e[0]) + self.cos1")
+mutant('C11-koyama-lpmin-before-check', 'C11', 'R11.v', KOYF2, "        if self.l > self.sigma/2.0:\n            self.lp_min = (4.0*self.l**3)/(4.0*self.l**2-self.sigma**2)\n        else:",
+       "        self.lp_min = (4.0*self.l**3)/(4.0*self.l**2-self.sigma**2)\n        if self.l > self.sigma/2.0:\n            pass\n        else:")
+twin('C11-twin-koyama-cos-avg-rewritten', 'C11', KOYF2, "        return 1/e  - ( exp(e) + cos0*exp(-e*cos0) )/( exp(e) - exp(-e*cos0) )", "        den = exp(e) - exp(-e*cos0)\n        return 1.0/e - exp(e)/den - cos0*exp(-e*cos0)/den")
+mutant('C16-system-iterpairs-negated-filter', 'C16', 'R16.i', SYF, "            if test(i,j):\n                yield (i,j),(t1,t2)", "            if not test(i,j):\n                yield (i,j),(t1,t2)")
+twin('C16-twin-system-iterpairs-operator', 'C16', SYF, "            test = lambda i,j: i<=j", "            test = lambda i,j: not j<i")
